@@ -26,7 +26,10 @@ ENTRY = dict(
                 "starting, resuming, timing out, cancelled, each suspended waiter holds the very Event object the table has under its name (rests on event_identity); store_wakes_every_waiter — a store for a name leaves no waiter of that name suspended)",
             'public API audit: everything EventManager defines is in one of the two machines': 'table (Gen.eventManagerApi by reflection; event_manager_api_pinned: a new / renamed public method or a changed default breaks it)',
             "create_event identity: one Event per name for the manager's lifetime, also after timed-out and cancelled waits": 'theorem (C13T.event_identity, step_keeps, create_event_returns_the_same_object over ALL histories of create_event / set_event / store / load / wait / resume / expire / cancel) + correspondence (section `table`: Event object identity and is_set observed through `events` after every op)',
-            'data / get_nowait / attribute access never yield a value that was not an outcome of a dispatch or load': 'theorem (C13T.data_is_an_outcome, only_dispatch_and_load_store, load_is_stores) + correspondence (every public reader compared with data after every op; get() after a bare set_event raises KeyError)',
+            'data / get_nowait / attribute access never yield a value that was not an outcome of a dispatch or load': 'theorem (C13T.data_is_an_outcome, only_dispatch_and_load_store, load_is_stores) + correspondence (every public reader compared with data after every op; get() after a bare set_event raises KeyError). '
+                'Reading: data_is_an_outcome holds by construction of the ghost `stores` (appended exactly where the model writes `data`); its content is event_manager_api_pinned (reflection: EventManager has no other public method that writes data). '
+                'DISCLOSED: `data` is a public attribute and `events` returns the live dict; clients writing through them (em.data[k] = v, del em.events[k], ...) are outside `Op` and outside every C13T theorem. '
+                'load_is_stores is definitional, and load = one store per item in order holds only for names WITHOUT subscribers (hypothesis carried by Op.load, stated in the docstring; with subscribers the stores happen in the order the gathered dispatches finish, which the machine expresses as separate store ops)',
             "callbacks awaited in subscription order, value threaded, None keeps it": "theorem (dispatch_order_and_threading, plain_entries_awaited, snapshot_is_live_list)",
             "the only entries a dispatch passes without awaiting are once-wrappers that had been unsubscribed": "theorem (skipped_entry_was_removed: under every schedule a skipped snapshot entry is a once-wrapper AND is recorded as removed from its live list — invariant InvK in Proofs/EventsK.lean; live_entry_awaited: in ANY state a dispatch that reaches a plain entry, or a once-wrapper still in the live list, awaits it with the current value; snapshot_entry_awaited_or_removed: a finished dispatch awaited every entry of its snapshot or the entry had been removed) — a machine that never awaits subscribe_once callbacks does not satisfy these",
             "then stores the final value and wakes every waiter": "theorem (finish_stores_and_wakes, dispatch_order_and_threading)",
